@@ -478,23 +478,41 @@ class LemmaCase(Case):
       L = tfc.sym([U, len(kps) - 1], 'logit')
       K = tfc.sym([len(kps), U], 'K')
 
+      cyc = bool(cfg.get('cyclic'))
+      K = tfc.sym([len(kps) - (1 if cyc else 0), U], 'K')
+      M = tfc.sym([1, U], 'M')
+
       def provider(layer, name, shape, dt, init, cons):
-        return K if 'kernel' in name else L
+        return K if 'kernel' in name else (M if 'missing' in name else L)
       kerasc.WEIGHT_PROVIDER[0] = provider
+      kw = dict(input_keypoints=list(kps), units=U, input_keypoints_type='learned_interior', is_cyclic=cyc,
+                split_outputs=bool(cfg.get('split')))
+      if cfg.get('missing'):
+        kw.update(impute_missing=True, missing_input_value=-7.5)
       try:
-        layer = ly.PWLCalibration(input_keypoints=list(kps), units=U, input_keypoints_type='learned_interior')
+        layer = ly.PWLCalibration(**kw)
         layer.build(tfc.TensorShape([None, cfg.get('in_cols', U)]))
       finally:
         kerasc.WEIGHT_PROVIDER[0] = None
       x = tfc.sym([1, cfg.get('in_cols', U)], 'x')
       y = layer.call(x)
+      if isinstance(y, list):
+        cl.append(('split-into-one-tensor-per-unit', B.const(len(y) == U and all(tuple(t.a.shape) == (1, 1) for t in y))))
+        y = tfc.concat(y, axis=1)
       kin, kout = layer.keypoints_inputs(), layer.keypoints_outputs()
       cl.append(('shape', B.const(tuple(y.a.shape) == (1, U))))
+      cl.append(('reported-keypoints-shape', B.const(tuple(kin.a.shape) == (len(kps), U) and tuple(kout.a.shape) == (len(kps), U))))
       for u in range(U):
         xu = P.lift(x.a[0, u if cfg.get('in_cols', U) > 1 else 0])
         want = hat_form([P.lift(kin.a[i, u]) for i in range(len(kps))], [P.lift(kout.a[i, u]) for i in range(len(kps))], xu)
         got = P.lift(y.a[0, u])
-        cl.append(('call-interpolates-reported-keypoints[u%d]' % u, E.TRUE if got.same(want) else got.eq(want)))
+        if cfg.get('missing'):
+          cl.append(('call-interpolates-reported-keypoints[u%d]' % u, xu.ne(-7.5).implies(got.eq(want))))
+          cl.append(('missing-input-gives-missing-output[u%d]' % u, xu.eq(-7.5).implies(got.eq(P.lift(M.a[0, u])))))
+        else:
+          cl.append(('call-interpolates-reported-keypoints[u%d]' % u, E.TRUE if got.same(want) else got.eq(want)))
+        if cyc:
+          cl.append(('cyclic-reported-ends-equal[u%d]' % u, P.lift(kout.a[0, u]).eq(P.lift(kout.a[-1, u]))))
     elif kind == 'hat-form':
       # for ANY strictly increasing keypoints the hat form is the linear interpolation on each
       # segment and constant outside (keypoints are symbolic here)
@@ -592,6 +610,10 @@ def configs(tier, rng):
           jobs.append(('lemma', dict(lemma='learned-keypoints', nk=nk, kpset=kpset, units=units)))
           for in_cols in sorted({1, units}):
             jobs.append(('lemma', dict(lemma='learned-call', nk=nk, kpset=kpset, units=units, in_cols=in_cols)))
+            if kpset == 0:
+              jobs.append(('lemma', dict(lemma='learned-call', nk=nk, kpset=kpset, units=units, in_cols=in_cols, cyclic=True)))
+              jobs.append(('lemma', dict(lemma='learned-call', nk=nk, kpset=kpset, units=units, in_cols=in_cols, missing=True,
+                                         split=units > 1)))
     jobs.append(('lemma', dict(lemma='hat-form', nk=nk)))
     for d in (1, -1):
       jobs.append(('lemma', dict(lemma='hat-form-monotone', nk=nk, direction=d)))
